@@ -46,6 +46,13 @@ pub fn run_case(c: &Value) -> Value {
             "json" => res.set_json(serde_json::from_slice::<Value>(&unhex(g(1))).expect("harness: json op needs JSON")),
             "payload" => res.set_payload(leak_str(unhex(g(1))), unhex(g(2))),
             "drop" => { let _ = res.drop_content(); }
+            "stream" => {
+                // an event stream as content: the response a DataStream handler returns, under the status of the case
+                let msgs: Vec<String> = a[1].as_array().unwrap().iter().map(|m| string(unhex(m.as_str().unwrap()))).collect();
+                let status = res.status;
+                res = ohkami::IntoResponse::into_response(ohkami::sse::DataStream::<String>::new(move |mut s| async move { for m in msgs { s.send(m); } }));
+                res.status = status;
+            }
             other => panic!("harness: unknown op {other}"),
         }
     }
